@@ -206,7 +206,7 @@ Proof.
         -- intro s0. subst st'. sp. apply accq_acc.
         -- intro s0. reflexivity.
       * subst st'. sp. intros k0 n cur curall rest Hw. by_idx k0 k; [|eauto].
-        destruct (wpcs st k) eqn:Hwk; cbn [is_widle] in Hw; try discriminate; eauto.
+        destruct (wpcs st k) eqn:Hwk; cbn [is_widle] in Hw; try discriminate. inversion Hw; subst. eauto.
       * exact o_sub0.
       * subst st'. sp. f_inflight s.
       * subst st'. sp. intros s0 q0 Hq. unfold fresh_bound. sp. rewrite accq_acc in Hq.
@@ -227,4 +227,75 @@ Proof.
   - destruct O; constructor; sp; try assumption; try solve [f_inflight s]; try solve [f_fresh s; auto].
   - destruct O; constructor; sp; try assumption; try solve [f_inflight s]; try solve [f_fresh s; auto].
   - (* SReject *) destruct O; constructor; sp; try assumption; try solve [f_inflight s].
+    + intro s0. rewrite accq_rej. apply o_acc0.
+    + intros s0 q0 Hq. rewrite accq_rej in Hq. unfold fresh_bound. sp. by_idx s0 s.
+      * cbn [spc_q]. rewrite (o_inflight0 s q) by (rewrite Hpc; reflexivity).
+        specialize (o_fresh0 s q0 Hq). unfold fresh_bound in o_fresh0. rewrite Hpc in o_fresh0.
+        cbn [spc_q] in o_fresh0. lia.
+      * apply o_fresh0. exact Hq.
+    + intro s0. rewrite accq_rej. apply o_sorted0.
+Qed.
+
+(* ---- drain worker steps ---------------------------------------------------------------------------- *)
+
+Definition cursub (st : state) : Prop :=
+  forall k n cur curall rest, wpcs st k = WDisp n cur curall rest -> incl cur curall.
+
+Lemma order_neutral c st st' k :
+  Order c st -> pipe_upd st k (pipe st k) st' ->
+  sends st' = sends st -> disps st' = disps st -> wire st' = wire st ->
+  spcs st' = spcs st -> nextq st' = nextq st -> cursub st' -> Order c st'.
+Proof.
+  intros [? ? ? ? ? ? ?] Hp Hs Hd Hw Hsp Hn Hc. constructor.
+  - apply (oshard_upd c st k _ st' o_shard0 Hp). intros x Hx. apply o_shard0. exact Hx.
+  - apply (oacc_same c st k st' o_acc0 Hp); intro s; rewrite ?Hs, ?Hd; reflexivity.
+  - exact Hc.
+  - rewrite Hw, Hd. exact o_sub0.
+  - rewrite Hsp, Hn. exact o_inflight0.
+  - unfold fresh_bound. rewrite Hsp, Hn, Hs. exact o_fresh0.
+  - rewrite Hs. exact o_sorted0.
+Qed.
+
+Lemma order_handled c st st' k items rest t :
+  Order c st -> pipe st k = items ++ rest -> pipe_upd st k rest st' ->
+  sends st' = sends st ->
+  disps st' = disps st ++ map (fun x => HDisp (t_s x) (t_q x) t) items ->
+  (forall s, subseqb (ackq (wire st') s) (finq (disps st') s) = true) ->
+  spcs st' = spcs st -> nextq st' = nextq st -> cursub st' -> Order c st'.
+Proof.
+  intros [? ? ? ? ? ? ?] Hpk Hp Hs Hd Hsub Hsp Hn Hc. constructor.
+  - apply (oshard_upd c st k _ st' o_shard0 Hp). intros x Hx. apply o_shard0. rewrite Hpk.
+    apply in_or_app. right. exact Hx.
+  - apply (oacc_drop c st k st' items rest o_shard0 o_acc0 Hpk Hp).
+    + intro s. rewrite Hs. reflexivity.
+    + intro s. rewrite Hd, finq_app, finq_drop. reflexivity.
+  - exact Hc.
+  - exact Hsub.
+  - rewrite Hsp, Hn. exact o_inflight0.
+  - unfold fresh_bound. rewrite Hsp, Hn, Hs. exact o_fresh0.
+  - rewrite Hs. exact o_sorted0.
+Qed.
+
+Ltac cursub_tac k :=
+  let k0 := fresh "k0" in let Hw0 := fresh "Hw0" in
+  unfold cursub; sp; intros k0 ? ? ? ? Hw0; by_idx k0 k;
+  [try discriminate; try (inversion Hw0; subst; try apply incl_refl) | eauto].
+
+Lemma order_work c st k ch : cfg_ok c -> (k < c_shards c)%nat -> Order c st -> Order c (work_step c k ch st).
+Proof.
+  intros Hc Hk O. unfold work_step.
+  destruct (wpcs st k) eqn:Hw; try exact O.
+  - (* WPending *) apply (order_neutral c st _ k O); try reflexivity; [pipe_tac k | cursub_tac k].
+  - (* WNext *) destruct (mbox st k) eqn:Hm;
+      (apply (order_neutral c st _ k O); try reflexivity; [pipe_tac k | cursub_tac k]).
+  - (* WCollect *)
+    destruct (eff_maxrec (c_maxrec c) <=? length items)%nat.
+    + apply (order_neutral c st _ k O); try reflexivity; [pipe_tac k | cursub_tac k].
+    + destruct ch; destruct (mbox st k) eqn:Hm; try exact O;
+        (apply (order_neutral c st _ k O); try reflexivity; [pipe_tac k | cursub_tac k]).
+  - (* WConsumeShard *) apply (order_neutral c st _ k O); try reflexivity; [pipe_tac k | cursub_tac k].
+  - (* WConsume *)
+    pose proof (units_concat c t_b items) as Hcat. unfold advance.
+    destruct (units c t_b items) as [|b0 rest] eqn:Hu;
+      (apply (order_neutral c st _ k O); try reflexivity; [pipe_tac k | cursub_tac k]).
     Show.
